@@ -129,6 +129,12 @@ def _rows_after_solve(T, n, reduce, extra):
         return n < T + 1
     if n < T + 1:
         return False
+    # reading results back - including a request for a name that is not a series, which raises KeyError - does not change the table
+    try:
+        es.TimeSeries['no_such_series']
+        return False
+    except KeyError:
+        pass
     lines = es.GenerateCSVtext().split('\n')
     head = lines[0].split('\t')
     if head != ['k', 't', 'G', 'L', 'd', 'x']:
